@@ -18,7 +18,7 @@ pub enum FCall {
     BeginArray, EndArray, BeginArrayValue(bool), EndArrayValue,
     BeginObject, EndObject, BeginObjectKey(bool), EndObjectKey, BeginObjectValue, EndObjectValue,
     StrValue(Seq<u8>),
-    BeginString, EndString, WriteBool(bool), WriteI64(i64), WriteU64(u64),
+    BeginString, EndString, WriteBool(bool), WriteI64(i64), WriteU64(u64), RawValue(Seq<u8>),
     Other(int),
 }
 pub mod io {
@@ -35,6 +35,11 @@ impl MapIo for io::Result<()> {
     fn map_io(self) -> (r: Result<()>) ensures r.is_ok() == self.is_ok(), { unimplemented!() }
 }
 pub trait WriteExt { }
+pub uninterp spec fn sbytes(s: &str) -> Seq<u8>;
+pub uninterp spec fn char_utf8(c: char) -> Seq<u8>;
+// substitution target for `&value.to_string()` (char -> its UTF-8 text, kept alive by the caller's temporary)
+#[verifier::external_body]
+pub fn char_as_str<'t>(c: char, tmp: &'t mut [u8; 4]) -> (r: &'t str) ensures sbytes(r) == char_utf8(c), { unimplemented!() }
 
 /// the formatter as a ghost call trace + failure flag (what each call writes: unit `formatter`)
 pub trait Formatter {
@@ -68,6 +73,8 @@ pub trait Formatter {
         ensures final(self).calls() == old(self).calls().push(FCall::WriteBool(value)), final(self).failed() == (old(self).failed() || r.is_err());
     fn write_i64<W: WriteExt>(&mut self, writer: &mut W, value: i64) -> (r: io::Result<()>)
         ensures final(self).calls() == old(self).calls().push(FCall::WriteI64(value)), final(self).failed() == (old(self).failed() || r.is_err());
+    fn write_raw_value<W: WriteExt>(&mut self, writer: &mut W, raw: &str) -> (r: io::Result<()>)
+        ensures final(self).calls() == old(self).calls().push(FCall::RawValue(sbytes(raw))), final(self).failed() == (old(self).failed() || r.is_err());
     fn write_u64<W: WriteExt>(&mut self, writer: &mut W, value: u64) -> (r: io::Result<()>)
         ensures final(self).calls() == old(self).calls().push(FCall::WriteU64(value)), final(self).failed() == (old(self).failed() || r.is_err());
 }
@@ -111,7 +118,6 @@ impl<'a, W: WriteExt, F: Formatter> Compound<'a, W, F> {
     }
 }
 
-pub uninterp spec fn sbytes(s: &str) -> Seq<u8>;
 impl<'a, W: WriteExt, F: Formatter> Serializer<W, F> {
     // serialize_str -> write_string_fast -> format_string (the escaper: not under contract, DESIGN §9): one event
     #[verifier::external_body]
@@ -279,6 +285,20 @@ impl<'a, W: WriteExt, F: Formatter> MapKeySerializer<'a, W, F> {
 //@sig
         requires !self.cur_failed(),
         ensures res.is_ok() ==> self.fut_ser().formatter.calls() == self.cur_calls() + seq![FCall::BeginString, FCall::WriteBool(value), FCall::EndString],
+            self.fut_ser().formatter.failed() ==> res.is_err(),
+//@end
+//@extract file=src/serde/ser.rs impl="ser::Serializer for MapKeySerializer<'a, W, F>" fn=serialize_char
+//@subst /&value\.to_string\(\)/ => char_as_str(value, &mut [0u8; 4])
+//@sig
+        requires !self.cur_failed(),
+        // a char key is a string: it must go through serialize_str (the escaper), not be written raw
+        ensures res.is_ok() ==> self.fut_ser().formatter.calls() == self.cur_calls().push(FCall::StrValue(char_utf8(value))),
+            self.fut_ser().formatter.failed() ==> res.is_err(),
+//@end
+//@extract file=src/serde/ser.rs impl="ser::Serializer for MapKeySerializer<'a, W, F>" fn=serialize_str
+//@sig
+        requires !self.cur_failed(),
+        ensures res.is_ok() ==> self.fut_ser().formatter.calls() == self.cur_calls().push(FCall::StrValue(sbytes(value))),
             self.fut_ser().formatter.failed() ==> res.is_err(),
 //@end
 //@extract file=src/serde/ser.rs impl="ser::Serializer for MapKeySerializer<'a, W, F>" fn=serialize_i64
